@@ -26,6 +26,13 @@ func (vs *ValidatorStore) CheckMaliciousValidators(es *evidence.EvidenceStore, g
 		logger.Fatal("failed to get the evidence options")
 	}
 
+	// fetch previous suspicious validators first: a frozen validator is excluded from the
+	// election at every height; only the missed-votes scan below waits for enough history
+	es.IterateSuspiciousValidators(func(lvh *evidence.LastValidatorHistory) bool {
+		vs.maliciousValidators[lvh.Address.String()] = lvh
+		return false
+	})
+
 	// skip checks if does not met height criteria
 	if vs.lastHeight <= evidenceOptions.BlockVotesDiff {
 		logger.Infof("Height must be more than equal %d for check. Current: %d\n", evidenceOptions.BlockVotesDiff, vs.lastHeight)
@@ -41,12 +48,6 @@ func (vs *ValidatorStore) CheckMaliciousValidators(es *evidence.EvidenceStore, g
 	if err != nil {
 		return err
 	}
-
-	// fetch previous suspicious validators
-	es.IterateSuspiciousValidators(func(lvh *evidence.LastValidatorHistory) bool {
-		vs.maliciousValidators[lvh.Address.String()] = lvh
-		return false
-	})
 
 	addresses := make([]string, 0, len(cv.Addresses))
 	for addr := range cv.Addresses {
